@@ -568,6 +568,25 @@ impl Store {
 
     #[tracing::instrument(skip(self))]
     pub fn insert_frame(&self, frame: &Frame) -> Result<(), crate::error::Error> {
+        // A context registration is kept forever whatever TTL was requested, on import as
+        // on append: a registration that expires stays usable until the store is reopened
+        // and strands the frames of its context afterwards.
+        let registration;
+        let frame = match frame.ttl {
+            Some(ref ttl)
+                if frame.topic == "xs.context"
+                    && frame.context_id == ZERO_CONTEXT
+                    && *ttl != TTL::Forever =>
+            {
+                registration = Frame {
+                    ttl: Some(TTL::Forever),
+                    ..frame.clone()
+                };
+                &registration
+            }
+            _ => frame,
+        };
+
         let encoded: Vec<u8> = serde_json::to_vec(&frame).unwrap();
 
         // Get the index topic key
